@@ -90,6 +90,14 @@ def run(chk):
                     of["max depth"] = 2.5e5
                     wj["features"].append(of)
                     break
+        aim_plume = None
+        if sph and wi % 3 == 1:
+            # a plume whose footprint ends up across the +-180 meridian in the moved world; queried in its head (above the
+            # first cross section), in its stem and around it
+            from wbgen import Gen
+            aim_plume = Gen(rng).plume("aimpl%d" % wi, True)
+            aim_plume["min depth"] = 0.0
+            wj["features"].append(aim_plume)
         if sph:
             lons = []
 
@@ -105,6 +113,8 @@ def run(chk):
                 off = tgt - rng.uniform(lo, hi)
             else:
                 off = rng.uniform(-360.0 - lo, 360.0 - hi)
+            if aim_plume is not None:
+                off = rng.choice([180.0, -180.0]) - aim_plume["coordinates"][0][0] + rng.uniform(-1.5, 1.5)
             off = float(round(off, 1))
             if lo + off < -360.0 or hi + off > 360.0:
                 off = 0.0
@@ -140,6 +150,15 @@ def run(chk):
                             y = p0[1] + tt * (p1[1] - p0[1]) + rng.uniform(-sc, sc)
                             dd = float(round(rng.uniform(0.0, 1.0e5)))
                             extra.append((cart_point(sph, x, y, dd, wj.get("coordinate system", {}).get("radius", 6371000.0), TOP), dd))
+        if aim_plume is not None:
+            d0 = aim_plume["cross section depths"][0]
+            a0 = aim_plume["semi-major axis"][0]
+            c0 = aim_plume["coordinates"][0]
+            for _k in range(12):
+                dd = float(round(rng.uniform(0.0, d0) if _k % 3 else rng.uniform(d0, aim_plume["cross section depths"][-1])))
+                x = c0[0] + rng.uniform(-1.1, 1.1) * a0
+                y = max(-89.0, min(89.0, c0[1] + rng.uniform(-1.1, 1.1) * a0))
+                extra.append((cart_point(True, x, y, dd, wj.get("coordinate system", {}).get("radius", 6371000.0), TOP), dd))
         for qi in range(24 + len(extra)):
             lf = [f for f in feats if f["model"] in ("subducting plate", "fault")]
             u = rng.random()
